@@ -1000,6 +1000,20 @@ Section RoundTrip.
     unfold run_history. rewrite map_app. cbn [map fst snd].
     rewrite nth_error_app2 by (rewrite map_length; lia). rewrite map_length, Nat.sub_diag. reflexivity.
   Qed.
+
+  (* re-using an export target: what the target held before is irrelevant *)
+  Lemma step_on_result (s : store tok) od :
+    snd (step_on comp tok show read cam_name model_ids model_names unknown unknown_as focal_factor M false s od)
+    = rtm (fst od) (snd od).
+  Proof. unfold step_on, export_to, roundtrip_mode. cbn [snd]. destruct (export _ _ _ _ _ _ _ _ _ _ (snd od)); reflexivity. Qed.
+
+  Lemma run_on_history (s : store tok) h :
+    run_on comp tok show read cam_name model_ids model_names unknown unknown_as focal_factor M false s h
+    = run_history comp tok show read cam_name model_ids model_names unknown unknown_as focal_factor M false h.
+  Proof.
+    revert s; induction h as [|od h IH]; intros s; [reflexivity|]. cbn [run_on run_history map].
+    rewrite step_on_result, IH. reflexivity.
+  Qed.
 End RoundTrip.
 
 (* ------------------------------------------------------------------ the naming used in executions is injective *)
